@@ -112,8 +112,8 @@ impl Scenario for C18S {
     }
     fn count(&self, tier: Tier, _variant: &str) -> u64 {
         match tier {
-            Tier::Quick => 12000,
-            Tier::Thorough => 600_000,
+            Tier::Quick => 16_000,
+            Tier::Thorough => 480_000,
         }
     }
     fn rule(&self) -> &'static str {
